@@ -627,6 +627,9 @@ func (fs *factSet) eventLoopShape() {
 						body[i] = fs.text(b)
 					}
 					fs.add("el.case."+strings.Join(types, "_"), strings.Join(body, "; "))
+					// the inventory of the switch: a message kind that gets an arm of its own is handled
+					// by the library before (or instead of) reaching Update
+					fs.add("el.cases", strings.Join(types, "_"))
 				}
 				continue
 			}
